@@ -542,3 +542,440 @@ Proof.
   rewrite (dedup_id _ Hnd). destruct (merge_fold_spec CatIO.ballot_eqb ballot_eqb_eq bs) as [_ Hs].
   change CatIO.sum_N with sum_N. rewrite Hs. destruct (CatIO.c_meta i1); reflexivity.
 Qed.
+
+(* ================================================================================================ *)
+(* D. names: the header loop as a fold over the (id, raw name) entries of the header               *)
+(* ================================================================================================ *)
+Definition name_step (au : bool) (resv : list text) (d : list (N * text)) (p : N * text) : result (list (N * text)) :=
+  rmap (fun nm' => assoc_set N.eqb (fst p) nm' d) (corrected_name au (snd p) (values d) resv).
+
+Fixpoint name_fold (au : bool) (resv : list text) (d : list (N * text)) (raws : list (N * text))
+  : result (list (N * text)) :=
+  match raws with
+  | [] => Ok d
+  | p :: r => rbind (name_step au resv d p) (fun d' => name_fold au resv d' r)
+  end.
+
+Lemma name_fold_app au resv raws1 : forall d raws2,
+  name_fold au resv d (raws1 ++ raws2) = rbind (name_fold au resv d raws1) (fun d' => name_fold au resv d' raws2).
+Proof.
+  induction raws1 as [|p r IH]; intros d raws2; cbn [app name_fold rbind]; [reflexivity|].
+  destruct (name_step au resv d p); cbn [rbind]; [apply IH|reflexivity].
+Qed.
+
+(* ---- prefixes that exclude one another ---- *)
+Lemma sw_compat p : forall q l, startswith p l = true -> startswith q l = true ->
+  (startswith p q || startswith q p) = true.
+Proof.
+  induction p as [|a p IH]; intros q l Hp Hq; [reflexivity|].
+  destruct q as [|b q]; [reflexivity|].
+  destruct l as [|c l]; [discriminate|]. cbn [startswith] in *.
+  apply andb_true_iff in Hp as [Hac Hp]. apply andb_true_iff in Hq as [Hbc Hq].
+  apply N.eqb_eq in Hac. apply N.eqb_eq in Hbc. subst a b. rewrite N.eqb_refl. cbn [andb].
+  exact (IH _ _ Hp Hq).
+Qed.
+
+Lemma sw_app_l p q l : startswith (p ++ q) l = true -> startswith p l = true.
+Proof.
+  revert l. induction p as [|a p IH]; intros l H; [reflexivity|].
+  destruct l as [|c l]; [discriminate|]. cbn [app startswith] in *.
+  apply andb_true_iff in H as [H1 H2]. rewrite H1. cbn [andb]. now apply IH.
+Qed.
+
+Lemma match_name_sw prefix line p : match_name prefix line = Some p -> startswith prefix line = true.
+Proof. unfold match_name. destruct (startswith prefix line); [reflexivity|discriminate]. Qed.
+
+(* a line that starts with key cannot be a name line when key and the name prefix exclude one another *)
+Lemma no_match_name key prefix line :
+  (startswith key prefix || startswith prefix key) = false ->
+  startswith key line = true -> match_name prefix line = None.
+Proof.
+  intros Hc Hk. destruct (match_name prefix line) as [p|] eqn:E; [|reflexivity].
+  apply match_name_sw in E. pose proof (sw_compat _ _ _ Hk E). congruence.
+Qed.
+
+Lemma no_match_name_short key prefix line :
+  prefix = key ++ [32%N] -> startswith key line = false -> match_name prefix line = None.
+Proof.
+  intros -> Hk. destruct (match_name (key ++ [32%N]) line) as [p|] eqn:E; [|reflexivity].
+  apply match_name_sw, sw_app_l in E. congruence.
+Qed.
+
+(* ---- parse_metadata seen from the names ---- *)
+Definition names_effect (au : bool) (resv : list text) (prefix : text) (line : text) (d d' : list (N * text)) : Prop :=
+  match match_name prefix line with
+  | Some p => name_step au resv d p = Ok d'
+  | None => d' = d
+  end.
+
+Lemma pm_names au m line m' : parse_metadata au m line = Ok m' ->
+  reserved m' = reserved m /\ names_effect au (reserved m) alt_name_prefix line (alt_names m) (alt_names m').
+Proof.
+  unfold parse_metadata, names_effect. intros H.
+  repeat match type of H with
+  | (if startswith (lit ?k) line then _ else _) = _ =>
+    lazymatch k with
+    | "# ALTERNATIVE NAME"%string => fail
+    | _ => let E := fresh "E" in destruct (startswith (lit k) line) eqn:E;
+           [rewrite (no_match_name (lit k) alt_name_prefix line eq_refl E);
+            first [ injection H as <-; split; reflexivity
+                  | destruct (py_int _); cbn [rmap] in H; [injection H as <-; split; reflexivity|discriminate] ]
+           | ]
+    end
+  end.
+  destruct (startswith (lit "# ALTERNATIVE NAME") line) eqn:EA.
+  - destruct (match_name alt_name_prefix line) as [[alt nm]|].
+    + unfold name_step. cbn [fst snd].
+      destruct (corrected_name au nm (values (alt_names m)) (reserved m)); cbn [rmap] in *; [|discriminate].
+      injection H as <-. split; reflexivity.
+    + injection H as <-. split; reflexivity.
+  - rewrite (no_match_name_short (lit "# ALTERNATIVE NAME") alt_name_prefix line eq_refl EA).
+    injection H as <-. split; reflexivity.
+Qed.
+
+Lemma names_effect_fold au resv prefix line d d' rest :
+  names_effect au resv prefix line d d' ->
+  name_fold au resv d ((match match_name prefix line with Some p => [p] | None => [] end) ++ rest)
+  = name_fold au resv d' rest.
+Proof.
+  unfold names_effect. destruct (match_name prefix line) as [p|]; cbn [app name_fold].
+  - intros ->. reflexivity.
+  - intros ->. reflexivity.
+Qed.
+
+(* ---- ordinal header ---- *)
+Lemma ord_header_step_names au st line st' : OrdIO.header_step au st line = Ok st' ->
+  reserved (fst st') = reserved (fst st) /\
+  names_effect au (reserved (fst st)) alt_name_prefix line (alt_names (fst st)) (alt_names (fst st')).
+Proof.
+  unfold OrdIO.header_step. destruct (startswith OrdIO.nuo_prefix line) eqn:E.
+  - destruct (py_int (drop 23 line)); cbn [rmap]; [|discriminate]. intros H. injection H as <-. cbn [fst].
+    split; [reflexivity|]. unfold names_effect.
+    now rewrite (no_match_name OrdIO.nuo_prefix alt_name_prefix line eq_refl E).
+  - destruct (parse_metadata au (fst st) line) as [m'|e] eqn:EP; cbn [rmap]; [|discriminate].
+    intros H. injection H as <-. cbn [fst]. now apply pm_names.
+Qed.
+
+Lemma raw_names_cons prefix l r :
+  raw_names prefix (l :: r) =
+  if is_header l then (match match_name prefix (strip l) with Some p => [p] | None => [] end) ++ raw_names prefix r
+  else [].
+Proof. unfold raw_names. cbn [header_lines]. destruct (is_header l); reflexivity. Qed.
+
+Lemma ord_header_names au lines : forall st st' rest,
+  OrdIO.header_loop au st lines = Ok (st', rest) ->
+  reserved (fst st') = reserved (fst st) /\
+  name_fold au (reserved (fst st)) (alt_names (fst st)) (raw_names alt_name_prefix lines) = Ok (alt_names (fst st')).
+Proof.
+  induction lines as [|l r IH]; intros st st' rest H.
+  - cbn in H. injection H as <- _. split; reflexivity.
+  - rewrite raw_names_cons. cbn [OrdIO.header_loop] in H. unfold is_header. change OrdIO.hash with hash in H.
+    destruct (startswith hash (strip l)).
+    + destruct (OrdIO.header_step au st (strip l)) as [st1|e] eqn:E1; cbn [rbind] in H; [|discriminate].
+      destruct (ord_header_step_names _ _ _ _ E1) as [Hr Hn].
+      rewrite (names_effect_fold _ _ _ _ _ _ _ Hn).
+      destruct r as [|l2 r2].
+      * injection H as <- _. split; [exact Hr|reflexivity].
+      * destruct (IH _ _ _ H) as [Hr2 Hf]. rewrite Hr in *. split; [exact Hr2|exact Hf].
+    + injection H as <- _. split; reflexivity.
+Qed.
+
+(* ---- categorical header ---- *)
+Lemma cat_header_line_names au resv i line i' : CatIO.header_line au resv i line = Ok i' ->
+  reserved (CatIO.c_meta i') = reserved (CatIO.c_meta i) /\
+  names_effect au (reserved (CatIO.c_meta i)) alt_name_prefix line
+               (alt_names (CatIO.c_meta i)) (alt_names (CatIO.c_meta i')) /\
+  names_effect au resv cat_name_prefix line (CatIO.c_cat_names i) (CatIO.c_cat_names i').
+Proof.
+  unfold CatIO.header_line. intros H.
+  assert (H1 : exists i1, CatIO.c_meta i1 = CatIO.c_meta i /\ CatIO.c_cat_names i1 = CatIO.c_cat_names i /\
+    (if startswith (lit "# NUMBER CATEGORIES") line
+     then rmap (CatIO.set_c_num_categories i1) (py_int (drop 20 line))
+     else if startswith (lit "# CATEGORY NAME") line then
+       match match_name cat_name_prefix line with
+       | Some (cat, nm) =>
+         rmap (fun nm' => CatIO.set_c_cat_names i1 (assoc_set N.eqb cat nm' (CatIO.c_cat_names i1)))
+              (corrected_name au nm (values (CatIO.c_cat_names i1)) resv)
+       | None => Ok i1
+       end
+     else rmap (CatIO.set_c_meta i1) (parse_metadata au (CatIO.c_meta i1) line)) = Ok i').
+  { destruct (startswith (lit "# NUMBER UNIQUE PREFERENCES") line).
+    - destruct (py_int (drop 28 line)) as [n|e]; cbn [rmap rbind] in H; [|discriminate].
+      eexists. split; [|split; [|exact H]]; reflexivity.
+    - cbn [rbind] in H. exists i. split; [reflexivity|]. split; [reflexivity|exact H]. }
+  clear H. destruct H1 as (i1 & <- & <- & H). unfold names_effect.
+  destruct (startswith (lit "# NUMBER CATEGORIES") line) eqn:E1.
+  - rewrite (no_match_name (lit "# NUMBER CATEGORIES") alt_name_prefix line eq_refl E1).
+    rewrite (no_match_name (lit "# NUMBER CATEGORIES") cat_name_prefix line eq_refl E1).
+    destruct (py_int (drop 20 line)); cbn [rmap] in H; [|discriminate]. injection H as <-. repeat split; reflexivity.
+  - destruct (startswith (lit "# CATEGORY NAME") line) eqn:E2.
+    + rewrite (no_match_name (lit "# CATEGORY NAME") alt_name_prefix line eq_refl E2).
+      destruct (match_name cat_name_prefix line) as [[cat nm]|].
+      * unfold name_step. cbn [fst snd].
+        destruct (corrected_name au nm (values (CatIO.c_cat_names i1)) resv); cbn [rmap] in *; [|discriminate].
+        injection H as <-. repeat split; reflexivity.
+      * injection H as <-. repeat split; reflexivity.
+    + rewrite (no_match_name_short (lit "# CATEGORY NAME") cat_name_prefix line eq_refl E2).
+      destruct (parse_metadata au (CatIO.c_meta i1) line) as [m'|e] eqn:EP; cbn [rmap] in H; [|discriminate].
+      injection H as <-. destruct (pm_names _ _ _ _ EP) as [Hr Hn]. cbn [CatIO.set_c_meta CatIO.c_meta CatIO.c_cat_names].
+      split; [exact Hr|]. split; [exact Hn|reflexivity].
+Qed.
+
+Lemma cat_header_names au resv lines : forall i i' rest,
+  CatIO.header_loop au resv i lines = Ok (i', rest) ->
+  reserved (CatIO.c_meta i') = reserved (CatIO.c_meta i) /\
+  name_fold au (reserved (CatIO.c_meta i)) (alt_names (CatIO.c_meta i)) (raw_names alt_name_prefix lines)
+    = Ok (alt_names (CatIO.c_meta i')) /\
+  name_fold au resv (CatIO.c_cat_names i) (raw_names cat_name_prefix lines) = Ok (CatIO.c_cat_names i').
+Proof.
+  induction lines as [|l r IH]; intros i i' rest H.
+  - cbn in H. injection H as <- _. repeat split; reflexivity.
+  - rewrite !raw_names_cons. cbn [CatIO.header_loop] in H. unfold is_header. change CatIO.hash_prefix with hash in H.
+    destruct (startswith hash (strip l)).
+    + destruct (CatIO.header_line au resv i (strip l)) as [i1|e] eqn:E1; cbn [rbind] in H; [|discriminate].
+      destruct (cat_header_line_names _ _ _ _ _ E1) as (Hr & Ha & Hc).
+      rewrite (names_effect_fold _ _ _ _ _ _ _ Ha), (names_effect_fold _ _ _ _ _ _ _ Hc).
+      destruct r as [|l2 r2].
+      * injection H as <- _. split; [exact Hr|]. split; reflexivity.
+      * destruct (IH _ _ _ H) as (Hr2 & Hfa & Hfc). rewrite Hr in *. repeat split; assumption.
+    + injection H as <- _. repeat split; reflexivity.
+Qed.
+
+(* ================================================================================================ *)
+(* E. what the fold over the names guarantees                                                       *)
+(* ================================================================================================ *)
+Lemma values_set_in (d : list (N * text)) k v x :
+  In x (values (assoc_set N.eqb k v d)) -> x = v \/ In x (values d).
+Proof.
+  unfold values. induction d as [|[k0 v0] r IH]; cbn [assoc_set map snd In].
+  - intros [<-|[]]. now left.
+  - destruct (N.eqb k k0); cbn [map snd In].
+    + intros [<-|H]; [now left|right; now right].
+    + intros [<-|H]; [right; now left|]. destruct (IH H) as [->|H2]; [now left|right; now right].
+Qed.
+
+Lemma values_set_fresh (d : list (N * text)) k v :
+  ~ In v (values d) -> NoDup (values d) -> NoDup (values (assoc_set N.eqb k v d)).
+Proof.
+  unfold values. induction d as [|[k0 v0] r IH]; cbn [assoc_set map snd]; intros Hn Hnd.
+  - constructor; [intros []|constructor].
+  - inversion Hnd as [|? ? Hn0 Hnd0]; subst. destruct (N.eqb k k0); cbn [map snd].
+    + constructor; [|exact Hnd0]. intros H. apply Hn. now right.
+    + constructor.
+      * intros H. apply (values_set_in r k v v0) in H. destruct H as [->|H]; [apply Hn; now left|contradiction].
+      * apply IH; [|exact Hnd0]. intros H. apply Hn. now right.
+Qed.
+
+(* the name handed out by the autocorrect branch is never a current value *)
+Lemma corrected_fresh name vals resv t : corrected_name true name vals resv = Ok t -> ~ In t vals.
+Proof.
+  intros H. destruct (corrected_name_spec _ _ _ _ _ H) as [[E ->]|[_ (j & _ & _ & Hn & _)]]; [|exact Hn].
+  cbn [andb] in E. intros Hin. apply tmem_In in Hin. congruence.
+Qed.
+
+Theorem name_fold_nodup resv raws : forall d d',
+  NoDup (values d) -> name_fold true resv d raws = Ok d' -> NoDup (values d').
+Proof.
+  induction raws as [|[a r] raws IH]; intros d d' Hnd H; cbn [name_fold] in H.
+  - now injection H as <-.
+  - unfold name_step in H. cbn [fst snd] in H.
+    destruct (corrected_name true r (values d) resv) as [t|e] eqn:E; cbn [rmap rbind] in H; [|discriminate].
+    eapply IH; [|exact H]. apply values_set_fresh; [|exact Hnd]. eapply corrected_fresh; eauto.
+Qed.
+
+(* first occurrences keep their name, later ones get  name ++ "__" ++ k *)
+Inductive names_ok : list text -> list (N * text) -> list (N * text) -> Prop :=
+| nk_nil seen : names_ok seen [] []
+| nk_first seen a r raws fins :
+    ~ In r seen -> names_ok (seen ++ [r]) raws fins -> names_ok seen ((a, r) :: raws) ((a, r) :: fins)
+| nk_later seen a r j raws fins :
+    In r seen -> (1 <= j)%N -> names_ok (seen ++ [r]) raws fins ->
+    names_ok seen ((a, r) :: raws) ((a, suffixed r j) :: fins).
+
+Lemma N_eqb_eq' : forall a b : N, N.eqb a b = true <-> a = b.
+Proof. exact N.eqb_eq. Qed.
+
+Lemma name_fold_first resv raws : forall d seen d',
+  (forall v, In v (values d) -> In v seen \/ ~ In v resv) ->
+  (forall r, In r seen -> In r (values d)) ->
+  NoDup (keys d ++ map fst raws) ->
+  (forall r, In r (map snd raws) -> In r resv) ->
+  name_fold true resv d raws = Ok d' ->
+  exists fins, d' = d ++ fins /\ names_ok seen raws fins.
+Proof.
+  induction raws as [|[a r] raws IH]; intros d seen d' C1 C2 C3 C4 H; cbn [name_fold] in H.
+  - injection H as <-. exists []. split; [now rewrite app_nil_r|constructor].
+  - unfold name_step in H. cbn [fst snd] in H.
+    destruct (corrected_name true r (values d) resv) as [t|e] eqn:E; cbn [rmap rbind] in H; [|discriminate].
+    assert (Ha : assoc_get N.eqb a d = None).
+    { apply (assoc_get_none N.eqb N_eqb_eq'). intros Hin. cbn [map fst] in C3.
+      apply NoDup_remove_2 in C3. apply C3. apply in_or_app. now left. }
+    rewrite (assoc_set_absent N.eqb _ _ _ Ha) in H.
+    assert (Hr : In r resv) by (apply C4; now left).
+    assert (Hseen : tmem r (values d) = true <-> In r seen).
+    { rewrite tmem_In. split; [|apply C2]. intros Hv. destruct (C1 _ Hv) as [Hs|Hn]; [exact Hs|contradiction]. }
+    assert (Hvals : values (d ++ [(a, t)]) = values d ++ [t]) by (unfold values; now rewrite map_app).
+    assert (C3' : NoDup (keys (d ++ [(a, t)]) ++ map fst raws)).
+    { unfold keys in *. rewrite map_app. cbn [map fst] in *. now rewrite <- app_assoc. }
+    assert (C4' : forall r0, In r0 (map snd raws) -> In r0 resv) by (intros r0 H0; apply C4; now right).
+    destruct (corrected_name_spec _ _ _ _ _ E) as [[Et ->]|[Et (j & Hj & -> & Hnv & Hnr)]]; cbn [andb] in Et.
+    + (* first occurrence *)
+      assert (Hns : ~ In r seen) by (intros Hs; apply Hseen in Hs; congruence).
+      destruct (IH (d ++ [(a, r)]) (seen ++ [r]) d') as (fins & -> & Hok); try assumption.
+      * intros v Hv. rewrite Hvals in Hv. apply in_app_or in Hv as [Hv|[<-|[]]].
+        -- destruct (C1 _ Hv) as [Hs|Hn]; [left; apply in_or_app; now left|now right].
+        -- left. apply in_or_app. right. now left.
+      * intros r0 H0. rewrite Hvals. apply in_app_or in H0 as [H0|[<-|[]]]; apply in_or_app; [left; now apply C2|right; now left].
+      * exists ((a, r) :: fins). split; [now rewrite <- app_assoc|]. now constructor.
+    + (* repeated name *)
+      assert (Hs : In r seen) by (now apply Hseen).
+      destruct (IH (d ++ [(a, suffixed r j)]) (seen ++ [r]) d') as (fins & -> & Hok); try assumption.
+      * intros v Hv. rewrite Hvals in Hv. apply in_app_or in Hv as [Hv|[<-|[]]].
+        -- destruct (C1 _ Hv) as [Hs'|Hn]; [left; apply in_or_app; now left|now right].
+        -- now right.
+      * intros r0 H0. rewrite Hvals. apply in_or_app. left. apply C2.
+        apply in_app_or in H0 as [H0|[<-|[]]]; assumption.
+      * exists ((a, suffixed r j) :: fins). split; [now rewrite <- app_assoc|]. now constructor.
+Qed.
+
+(* names_ok, read entry by entry *)
+Lemma names_ok_fst seen raws fins : names_ok seen raws fins -> map fst fins = map fst raws.
+Proof. induction 1; cbn [map fst]; congruence. Qed.
+
+Lemma names_ok_split seen raws fins : names_ok seen raws fins ->
+  forall pre a r post, raws = pre ++ (a, r) :: post ->
+  exists fpre f fpost, fins = fpre ++ (a, f) :: fpost /\ List.length fpre = List.length pre /\
+    (~ In r (seen ++ map snd pre) -> f = r) /\
+    (In r (seen ++ map snd pre) -> exists j, (1 <= j)%N /\ f = suffixed r j).
+Proof.
+  induction 1 as [seen|seen a0 r0 raws fins Hn Hok IH|seen a0 r0 j raws fins Hs Hj Hok IH]; intros pre a r post E.
+  - destruct pre; discriminate.
+  - destruct pre as [|[a1 r1] pre]; cbn [app] in E.
+    + injection E as -> -> ->. exists [], r, fins. cbn [map app]. rewrite app_nil_r.
+      split; [reflexivity|]. split; [reflexivity|]. split; [reflexivity|]. intros Hin. contradiction.
+    + injection E as -> -> ->. destruct (IH pre a r post eq_refl) as (fpre & f & fpost & -> & Hl & H1 & H2).
+      exists ((a1, r1) :: fpre), f, fpost. cbn [map snd]. rewrite <- app_assoc in H1, H2. cbn [app] in H1, H2.
+      split; [reflexivity|]. split; [cbn; now rewrite Hl|]. split; assumption.
+  - destruct pre as [|[a1 r1] pre]; cbn [app] in E.
+    + injection E as -> -> ->. exists [], (suffixed r j), fins. cbn [map app]. rewrite app_nil_r.
+      split; [reflexivity|]. split; [reflexivity|]. split; [intros Hn; contradiction|]. intros _. now exists j.
+    + injection E as -> -> ->. destruct (IH pre a r post eq_refl) as (fpre & f & fpost & -> & Hl & H1 & H2).
+      exists ((a1, suffixed r1 j) :: fpre), f, fpost. cbn [map snd]. rewrite <- app_assoc in H1, H2. cbn [app] in H1, H2.
+      split; [reflexivity|]. split; [cbn; now rewrite Hl|]. split; assumption.
+Qed.
+
+(* lookup by id when the ids are pairwise distinct *)
+Lemma assoc_get_mid (fpre : list (N * text)) a f fpost :
+  ~ In a (map fst fpre) -> assoc_get N.eqb a (fpre ++ (a, f) :: fpost) = Some f.
+Proof.
+  induction fpre as [|[k v] fpre IH]; cbn [app assoc_get map fst In]; intros Hn.
+  - now rewrite N.eqb_refl.
+  - destruct (N.eqb_spec a k) as [->|_]; [exfalso; apply Hn; now left|]. apply IH. intros H. apply Hn. now right.
+Qed.
+
+Lemma raw_in_reserved prefix lines a r : In (a, r) (raw_names prefix lines) -> In r (reserved_of prefix lines).
+Proof.
+  induction lines as [|l ls IH]; [intros []|]. rewrite raw_names_cons. unfold reserved_of. cbn [flat_map].
+  destruct (is_header l); [|intros []]. intros H. apply in_or_app. apply in_app_or in H as [H|H].
+  - left. destruct (match_name prefix (strip l)) as [[a' r']|]; [|destruct H].
+    destruct H as [H|[]]. injection H as -> ->. now left.
+  - right. now apply IH.
+Qed.
+
+(* the form used by the property statements *)
+Definition first_occurrence_spec (raws finals : list (N * text)) : Prop :=
+  map fst finals = map fst raws /\
+  forall pre a r post, raws = pre ++ (a, r) :: post ->
+    (~ In r (map snd pre) -> assoc_get N.eqb a finals = Some r) /\
+    (In r (map snd pre) -> exists j, (1 <= j)%N /\ assoc_get N.eqb a finals = Some (suffixed r j)).
+
+Theorem name_fold_first_occurrence resv raws finals :
+  NoDup (map fst raws) -> (forall r, In r (map snd raws) -> In r resv) ->
+  name_fold true resv [] raws = Ok finals -> first_occurrence_spec raws finals.
+Proof.
+  intros Hnd Hres H.
+  destruct (name_fold_first resv raws [] [] finals) as (fins & -> & Hok); try assumption.
+  - intros v [].
+  - intros r [].
+  - cbn [app]. pose proof (names_ok_fst _ _ _ Hok) as Hf. split; [exact Hf|].
+    intros pre a r post E.
+    destruct (names_ok_split _ _ _ Hok pre a r post E) as (fpre & f & fpost & -> & Hl & H1 & H2). cbn [app] in H1, H2.
+    assert (Hna : ~ In a (map fst fpre)).
+    { subst raws. rewrite !map_app in Hf. cbn [map fst] in Hf. rewrite map_app in Hnd. cbn [map fst] in Hnd.
+      apply NoDup_remove_2 in Hnd. intros Hin. apply Hnd. apply in_or_app. left.
+      assert (Hl2 : List.length (map fst fpre) = List.length (map fst pre)) by now rewrite !map_length.
+      pose proof (f_equal (firstn (List.length (map fst fpre))) Hf) as Hfn.
+      rewrite firstn_app, Nat.sub_diag, firstn_all in Hfn. cbn [firstn] in Hfn. rewrite app_nil_r in Hfn.
+      rewrite Hl2, firstn_app, Nat.sub_diag, firstn_all in Hfn. cbn [firstn] in Hfn. rewrite app_nil_r in Hfn.
+      now rewrite <- Hfn. }
+    rewrite (assoc_get_mid _ _ _ _ Hna). split.
+    + intros Hn. now rewrite (H1 Hn).
+    + intros Hi. destruct (H2 Hi) as (j & Hj & ->). now exists j.
+Qed.
+
+(* ================================================================================================ *)
+(* F. ac_names_distinct and ac_first_occurrence                                                     *)
+(* ================================================================================================ *)
+Lemma ord_names_fold m0 lines i : OrdIO.ord_parse true false m0 lines = Ok i ->
+  name_fold true (reserved_of alt_name_prefix lines) (alt_names m0) (raw_names alt_name_prefix lines)
+  = Ok (alt_names (OrdIO.o_meta i)).
+Proof.
+  intros H. destruct (ord_parse_true_inv _ _ _ H) as (m & nu & bs & HH & _ & ->).
+  destruct (ord_header_names _ _ _ _ _ HH) as [_ Hf]. cbn [fst] in Hf.
+  unfold ord_reserve in Hf. cbn [reserved set_reserved alt_names] in Hf. rewrite Hf. destruct m; reflexivity.
+Qed.
+
+Lemma cat_names_fold m0 lines i : CatIO.cat_parse true false m0 lines = Ok i ->
+  name_fold true (reserved_of alt_name_prefix lines) (alt_names m0) (raw_names alt_name_prefix lines)
+  = Ok (alt_names (CatIO.c_meta i)) /\
+  name_fold true (reserved_of cat_name_prefix lines) [] (raw_names cat_name_prefix lines)
+  = Ok (CatIO.c_cat_names i).
+Proof.
+  intros H. destruct (cat_parse_true_inv _ _ _ H) as (i1 & bs & HH & _ & _ & _ & ->).
+  destruct (cat_header_names _ _ _ _ _ _ HH) as (_ & Hfa & Hfc).
+  cbn [CatIO.cinst0 CatIO.c_meta CatIO.c_cat_names] in Hfa, Hfc. unfold cat_reserve in Hfa.
+  split.
+  - cbn [reserved set_reserved alt_names] in Hfa. rewrite Hfa. unfold CatIO.recompute.
+    cbn [CatIO.set_c_ballots CatIO.set_c_meta CatIO.set_c_num_unique CatIO.c_meta]. destruct (CatIO.c_meta i1); reflexivity.
+  - rewrite Hfc. reflexivity.
+Qed.
+
+Theorem ac_names_distinct_ord m0 lines i : alt_names m0 = [] ->
+  OrdIO.ord_parse true false m0 lines = Ok i -> NoDup (values (alt_names (OrdIO.o_meta i))).
+Proof.
+  intros H0 H. apply ord_names_fold in H. rewrite H0 in H.
+  eapply name_fold_nodup; [|exact H]. constructor.
+Qed.
+
+Theorem ac_names_distinct_cat m0 lines i : alt_names m0 = [] ->
+  CatIO.cat_parse true false m0 lines = Ok i ->
+  NoDup (values (alt_names (CatIO.c_meta i))) /\ NoDup (values (CatIO.c_cat_names i)).
+Proof.
+  intros H0 H. apply cat_names_fold in H as [Ha Hc]. rewrite H0 in Ha.
+  split; (eapply name_fold_nodup; [|eassumption]); constructor.
+Qed.
+
+Lemma raws_reserved prefix lines r : In r (map snd (raw_names prefix lines)) -> In r (reserved_of prefix lines).
+Proof. intros H. apply in_map_iff in H as ([a r'] & <- & Hin). eapply raw_in_reserved; eauto. Qed.
+
+Theorem ac_first_occurrence_ord m0 lines i : alt_names m0 = [] ->
+  ids_distinct alt_name_prefix lines = true ->
+  OrdIO.ord_parse true false m0 lines = Ok i ->
+  first_occurrence_spec (raw_names alt_name_prefix lines) (alt_names (OrdIO.o_meta i)).
+Proof.
+  intros H0 Hd H. apply ord_names_fold in H. rewrite H0 in H.
+  apply (nodupb_NoDup N.eqb N_eqb_eq') in Hd.
+  eapply name_fold_first_occurrence; [exact Hd| |exact H]. apply raws_reserved.
+Qed.
+
+Theorem ac_first_occurrence_cat m0 lines i : alt_names m0 = [] ->
+  CatIO.cat_parse true false m0 lines = Ok i ->
+  (ids_distinct alt_name_prefix lines = true ->
+   first_occurrence_spec (raw_names alt_name_prefix lines) (alt_names (CatIO.c_meta i))) /\
+  (ids_distinct cat_name_prefix lines = true ->
+   first_occurrence_spec (raw_names cat_name_prefix lines) (CatIO.c_cat_names i)).
+Proof.
+  intros H0 H. apply cat_names_fold in H as [Ha Hc]. rewrite H0 in Ha.
+  split; intros Hd; apply (nodupb_NoDup N.eqb N_eqb_eq') in Hd;
+    (eapply name_fold_first_occurrence; [exact Hd| |eassumption]); apply raws_reserved.
+Qed.
